@@ -564,6 +564,17 @@ def _run_single(scn, full_log=False):
                 if fut is not None:
                     arg_ok = len(args) == 1 and args[0] is fut
                 first = rec.note_run(ident, arg_ok)
+                outside = asyncio._get_running_loop() is not loop
+                if outside:
+                    # Every IOLoop callback runs from the running loop.  A callback invoked
+                    # synchronously by the scheduling call while the loop is stopped would make
+                    # Tornado (convert_yielded -> ensure_future) ask asyncio for "the" event loop,
+                    # i.e. create a real selector loop: report it and return nothing awaitable.
+                    bad("callback.ran_outside_loop",
+                        f"callback {ident} ({'add_future' if fut is not None else 'callback/timeout'})"
+                        f" was executed while the IOLoop was not running (inline in the call that "
+                        f"scheduled it)",
+                        "callback.ran_outside_loop/" + ("add_future" if fut is not None else "other"))
                 box["inside"] += 1
                 try:
                     if first and body.get("do"):
@@ -571,6 +582,8 @@ def _run_single(scn, full_log=False):
                         exec_ops(body["do"], ident)
                 finally:
                     box["inside"] -= 1
+                if outside and body.get("end", "ok") != "raise":
+                    return None
                 return finish(ident, body)
             return cb
 
@@ -930,6 +943,17 @@ def _run_single(scn, full_log=False):
         if any(rec.runs.get(i) for i in rec.futs):
             rec.mech.add("add_future")
         st_ = env.stats()
+        if st_.get("breaches"):
+            # A real facility was reached (the guard raised inside the caller).  Nothing in this
+            # module does that by itself: it is Tornado leaving the simulated loop, e.g. asking
+            # asyncio for a new event loop because a callback ran outside the running one.  That
+            # is a finding about the code under test, not a reason to abort the whole check.
+            for w in sorted(set(st_["breaches"])):
+                bad("seam.real_facility_reached",
+                    f"code under test reached the real {w} during the run (a real event loop or "
+                    f"socket was being created outside the simulated loop)",
+                    "seam.real_facility_reached/" + w)
+            st_["breaches"] = []
         st_["probes"].update(probes)
         st_["probes"]["callbacks_run"] = nruns
         if loop.skew:
